@@ -234,7 +234,7 @@ func runC04(p *Prog, r *Report) {
 			if pd == "" {
 				r.Bad(R, "pipe-loss-exact", p.InstrPos(resends[0].In), "cannot identify the departing pipe in the guards of the re-send")
 			} else {
-				res := ComparePred(resends[0].In.Block(), dom, assume, func(env map[string]int64) bool {
+				res := ComparePred(predBlock(resends[0]), dom, assume, func(env map[string]int64) bool {
 					return !fnpGone(env) && carriedOut(env) && env[c+".resendTime"] != 0
 				})
 				r.Check(res.OK && res.Undec == "", R, "pipe-loss-exact/resend", p.InstrPos(resends[0].In), "re-sent at once exactly when this pipe carried the outstanding request, retry is on, and fail-no-peers does not apply", "RemovePipe re-sends under the wrong condition (must be: not(failNoPeers and no peer left) and lastPipe == p and reqMsg != nil and resendTime != 0): "+res.Counter+res.Undec)
@@ -242,7 +242,7 @@ func runC04(p *Prog, r *Report) {
 				okAll, msg := true, ""
 				got := map[string]bool{}
 				for _, ce := range cancels {
-					rc := ComparePredSet(ce.In.Block(), dom, assume)
+					rc := ComparePredSet(predBlock(ce), dom, assume)
 					if rc.Undec != "" {
 						okAll, msg = false, rc.Undec
 						break
